@@ -285,4 +285,9 @@ def marksOKb (atoms : List PAtom) (spaths : List (List Nat)) : Bool :=
         | some (_, _, c1, c2) => (c1 == p.1 && c2 == p.2.m) || (c1 == p.2.m && c2 == p.1)
         | none => false
 
+/-- no atom with more than two neighbours carries two double bonds (hypothesis `NoHyperDouble` of the theorems that need no
+    `KeysDisjoint`): executable form -/
+def noHyperDoubleb (atoms : List PAtom) : Bool :=
+  atoms.all fun a => !(decide (a.nbrs.length > cumMaxNbrs)) || decide ((dblAdj atoms a.num).length < 2)
+
 end ChythonModel.Model.Pack
